@@ -716,7 +716,7 @@ def expand_text(st, text, depth_rd):
 
 
 def expand_usage(st, name, args, paren_text, depth_rd):
-    if isinstance(depth_rd, int) and depth_rd + 1 > LIMIT:
+    if _gt_limit(st, depth_rd + 1):
         raise RefError('ExceedRecursiveLimit')
     if name == '__LINE__' or name == '__FILE__':
         raise RuntimeError('position macros are not handled by the text expander')
@@ -742,7 +742,7 @@ def text_expander(st, use, v, file, strip):
     if args is not None:
         paren = '(' + ','.join('' if a is None else a for a in args) + ')'
         args = [None if (a is None or a.strip() == '') else a.strip() for a in args]
-    t = expand_usage(st, use.name, args, paren, st.rd if isinstance(st.rd, int) else 0)
+    t = expand_usage(st, use.name, args, paren, st.rd)
     prov = ('macro', v.get('file'), v.get('head_end'))
     for kind, tok in _lex(t):
         if strip and kind == 'com':
